@@ -32,8 +32,9 @@ type op struct {
 type caseA struct {
 	Versioned bool   `json:"versioned"`
 	Sidecar   bool   `json:"sidecar"`
-	Protect   string `json:"protect"` // hold, compliance, governance, default-governance, default-compliance
-	BobBypass bool   `json:"bob_bypass"` // the initial policy grants bob s3:BypassGovernanceRetention
+	Protect   string `json:"protect"`             // hold, compliance, governance, default-governance, default-compliance, upload-compliance, upload-governance (retention given with the upload's x-amz-object-lock-* headers)
+	ModeCase  int    `json:"mode_case,omitempty"` // upload-*: the mode is spelled 0 in capitals, 1 in lower case, 2 capitalised
+	BobBypass bool   `json:"bob_bypass"`          // the initial policy grants bob s3:BypassGovernanceRetention
 	NoPolicy  bool   `json:"no_policy,omitempty"` // the bucket starts without any bucket policy
 	Older     bool   `json:"older,omitempty"`     // versioned buckets: the protected version is not the current one
 	Ops       []op   `json:"ops"`
@@ -148,8 +149,25 @@ func execA(c caseA) (st stats, err error) {
 	}
 	data := []byte("precious data that must survive " + b)
 	path := "/" + b + "/" + key
-	pr := root.MustCall("PUT", path, nil, nil, data)
+	var lockHdr []s3c.KV
+	uploadUntil := time.Now().Add(time.Hour)
+	if strings.HasPrefix(c.Protect, "upload-") {
+		mode := strings.ToUpper(strings.TrimPrefix(c.Protect, "upload-"))
+		switch c.ModeCase {
+		case 1:
+			mode = strings.ToLower(mode)
+		case 2:
+			mode = mode[:1] + strings.ToLower(mode[1:])
+		}
+		lockHdr = []s3c.KV{{K: "x-amz-object-lock-mode", V: mode}, {K: "x-amz-object-lock-retain-until-date", V: uploadUntil.UTC().Format(time.RFC3339)}}
+	}
+	pr := root.MustCall("PUT", path, nil, lockHdr, data)
 	if !pr.OK() {
+		if lockHdr != nil && c.ModeCase != 0 && pr.Status == 400 {
+			// a spelling the gateway does not take: nothing was stored, nothing to protect
+			ev.Class("upload-lock-mode-spelling-refused")
+			return st, nil
+		}
 		return st, fmt.Errorf("SETUP: put: %v", pr)
 	}
 	vid := pr.Header.Get("x-amz-version-id")
@@ -171,6 +189,9 @@ func execA(c caseA) (st stats, err error) {
 		return []byte(fmt.Sprintf("<Retention><Mode>%s</Mode><RetainUntilDate>%s</RetainUntilDate></Retention>", mode, until.UTC().Format(time.RFC3339)))
 	}
 	switch c.Protect {
+	case "upload-compliance", "upload-governance":
+		// the upload was acknowledged with its retention headers: the retention is in force, however the mode was spelled
+		ms.mode, ms.until = strings.ToUpper(strings.TrimPrefix(c.Protect, "upload-")), uploadUntil
 	case "hold":
 		if r := root.MustCall("PUT", path, vq(s3c.Q("legal-hold", "")), nil, []byte("<LegalHold><Status>ON</Status></LegalHold>")); !r.OK() {
 			return st, fmt.Errorf("SETUP: legal hold: %v", r)
@@ -249,6 +270,16 @@ func execA(c caseA) (st stats, err error) {
 			destructive = true
 		case "delete":
 			r, err = cl.Call("DELETE", path, nil, hdr, nil)
+			destructive = true
+		case "delany":
+			// a delete that names a version id the key does not have (or, without a versions store, any id at all):
+			// whatever the backend makes of the id, the protected data stays
+			junk := []string{"null", "x", "01JUNKVERSION0000000000000", "0"}[o.Pos%4]
+			if o.Pos >= 3 {
+				r, err = cl.Call("POST", "/"+b, s3c.Q("delete", ""), hdr, s3c.DeleteXML([]s3c.KV{{K: key, V: junk}}, false))
+			} else {
+				r, err = cl.Call("DELETE", path, s3c.Q("versionId", junk), hdr, nil)
+			}
 			destructive = true
 		case "delver":
 			if !c.Versioned || vid == "" {
@@ -406,12 +437,12 @@ func describe(s *state) string {
 func opGen() *rapid.Generator[op] {
 	return rapid.Custom(func(t *rapid.T) op {
 		var o op
-		o.Kind = rapid.SampledFrom([]string{"put", "copy", "mpu", "delete", "delver", "batch", "delbucket", "retention", "retention", "holdoff", "holdon", "lockcfg", "suspend", "policy"}).Draw(t, "kind")
+		o.Kind = rapid.SampledFrom([]string{"put", "copy", "mpu", "delete", "delver", "delany", "batch", "delbucket", "retention", "retention", "holdoff", "holdon", "lockcfg", "suspend", "policy"}).Draw(t, "kind")
 		o.Caller = rapid.SampledFrom([]string{"root", "dave", "alice", "alice", "bob", "bob"}).Draw(t, "caller")
 		o.Bypass = rapid.Bool().Draw(t, "bypass")
 		o.Mode = rapid.SampledFrom([]string{"GOVERNANCE", "COMPLIANCE"}).Draw(t, "mode")
 		o.Until = rapid.SampledFrom([]int{5, 30, 59, 61, 120, 1, -5}).Draw(t, "until")
-		if o.Kind == "batch" || o.Kind == "lockcfg" {
+		if o.Kind == "batch" || o.Kind == "lockcfg" || o.Kind == "delany" {
 			o.Pos = rapid.IntRange(0, 5).Draw(t, "pos")
 		}
 		o.Grant = rapid.Bool().Draw(t, "grant")
@@ -443,7 +474,10 @@ func TestC10A(t *testing.T) {
 		var c caseA
 		c.Versioned = rapid.Bool().Draw(t, "versioned")
 		c.Sidecar = rapid.IntRange(0, 3).Draw(t, "sidecar") == 0
-		c.Protect = rapid.SampledFrom([]string{"hold", "compliance", "governance", "default-governance", "default-compliance"}).Draw(t, "protect")
+		c.Protect = rapid.SampledFrom([]string{"hold", "compliance", "governance", "default-governance", "default-compliance", "upload-compliance", "upload-governance"}).Draw(t, "protect")
+		if strings.HasPrefix(c.Protect, "upload-") {
+			c.ModeCase = rapid.SampledFrom([]int{0, 0, 1, 2}).Draw(t, "mode_case")
+		}
 		c.BobBypass = rapid.Bool().Draw(t, "bob_bypass")
 		c.NoPolicy = rapid.IntRange(0, 3).Draw(t, "no_policy") == 0
 		c.Older = rapid.IntRange(0, 2).Draw(t, "older") == 0
@@ -461,7 +495,7 @@ func TestC10A(t *testing.T) {
 		if st.RefusedWeakening > 0 {
 			cls = append(cls, "weakening-refused")
 		}
-		ev.Case(fmt.Sprintf("%s|%v|%v|%v|%v|%v|%v", c.Protect, c.Versioned, c.Sidecar, c.BobBypass, c.NoPolicy, c.Older, c.Ops), st.Accepted > 0 || st.RefusedWeakening > 0, cls...)
+		ev.Case(fmt.Sprintf("%s/%d|%v|%v|%v|%v|%v|%v", c.Protect, c.ModeCase, c.Versioned, c.Sidecar, c.BobBypass, c.NoPolicy, c.Older, c.Ops), st.Accepted > 0 || st.RefusedWeakening > 0, cls...)
 		ev.Sample("protect:"+c.Protect, 1, c)
 		if err != nil {
 			if strings.HasPrefix(err.Error(), "SETUP") {
